@@ -134,7 +134,11 @@ func (g *simGen) AllocateConn(conf turn.AllocateConnConfig) (net.Conn, error) {
 type Client struct {
 	Idx       int
 	Addr      *net.UDPAddr
-	Sock      *sim.UDPSock
+	Sock      *sim.UDPSock // datagram clients
+	Conn      *sim.Conn    // stream clients: the control connection
+	Stream    bool
+	Dead      bool // control connection closed
+	rbuf      []byte
 	User      int
 	Nonce     string // latest nonce seen
 	Nonce0    string // first nonce seen (for staleness probes)
@@ -157,6 +161,7 @@ type World struct {
 	srv     *turn.Server
 	srvSock *sim.UDPSock
 	srvAddr *net.UDPAddr
+	tcpLis  *sim.Listener
 	gen     *simGen
 	clients []*Client
 	peers   []*sim.UDPSock
@@ -253,15 +258,19 @@ func NewWorld(cfg Config, verbose bool) (*World, error) {
 	w.net.SetOwnerTag("client")
 	for i, ci := range cfg.Clients {
 		ca := ClientPool[ci%len(ClientPool)]
-		nw := "udp4"
-		if ca.IP.To4() == nil {
-			nw = "udp6"
+		c := &Client{Idx: i, Addr: &net.UDPAddr{IP: ca.IP, Port: ca.Port}, User: ca.User, Stream: cfg.isStream(i) && !cfg.ServerV6}
+		if !c.Stream {
+			nw := "udp4"
+			if ca.IP.To4() == nil {
+				nw = "udp6"
+			}
+			cs, err := w.net.BindUDP(nw, ca.IP, ca.Port)
+			if err != nil {
+				return nil, fmt.Errorf("client bind: %w", err)
+			}
+			c.Sock = cs
 		}
-		cs, err := w.net.BindUDP(nw, ca.IP, ca.Port)
-		if err != nil {
-			return nil, fmt.Errorf("client bind: %w", err)
-		}
-		w.clients = append(w.clients, &Client{Idx: i, Addr: &net.UDPAddr{IP: ca.IP, Port: ca.Port}, Sock: cs, User: ca.User})
+		w.clients = append(w.clients, c)
 	}
 	w.net.SetOwnerTag("relay")
 
@@ -320,12 +329,41 @@ func NewWorld(cfg Config, verbose bool) (*World, error) {
 			return w.model.liveCountOfUser(username) < cfg.Quota
 		}
 	}
+	anyStream := false
+	for _, c := range w.clients {
+		anyStream = anyStream || c.Stream
+	}
+	if anyStream {
+		w.net.SetOwnerTag("server-listener")
+		l, err := w.net.ListenTCPAt("tcp4", ServerIP4, ServerPort)
+		if err != nil {
+			return nil, err
+		}
+		w.tcpLis = l
+		w.net.SetOwnerTag("relay")
+		sc.ListenerConfigs = []turn.ListenerConfig{{
+			Listener:              l,
+			RelayAddressGenerator: w.gen,
+			PermissionHandler:     sc.PacketConnConfigs[0].PermissionHandler,
+		}}
+	}
 	srv, err := turn.NewServer(sc)
 	if err != nil {
 		return nil, err
 	}
 	w.srv = srv
 	w.mgrs = managersOf(srv)
+	for _, c := range w.clients {
+		if c.Stream {
+			w.net.SetOwnerTag("client")
+			conn, err := w.net.DialTCPFrom(&net.TCPAddr{IP: c.Addr.IP, Port: c.Addr.Port}, &net.TCPAddr{IP: ServerIP4, Port: ServerPort})
+			w.net.SetOwnerTag("relay")
+			if err != nil {
+				return nil, err
+			}
+			c.Conn = conn
+		}
+	}
 
 	return w, nil
 }
@@ -350,8 +388,27 @@ func (w *World) libAlloc(c *Client) *allocation.Allocation {
 	if len(w.mgrs) == 0 {
 		return nil
 	}
+	if c.Stream {
+		if len(w.mgrs) < 2 {
+			return nil
+		}
+
+		return w.mgrs[1].GetAllocation(&allocation.FiveTuple{SrcAddr: c.Addr, DstAddr: w.tcpLis.Addr(), Protocol: allocation.UDP})
+	}
 
 	return w.mgrs[0].GetAllocation(&allocation.FiveTuple{SrcAddr: c.Addr, DstAddr: w.srvSock.LocalAddr(), Protocol: allocation.UDP})
+}
+
+// send delivers raw to the server over the client's transport.
+func (w *World) send(c *Client, raw []byte) {
+	if c.Stream {
+		if !c.Dead {
+			_, _ = c.Conn.Write(raw)
+		}
+
+		return
+	}
+	_, _ = c.Sock.WriteTo(raw, w.srvAddr)
 }
 
 // Shutdown closes the server and force-closes every simnet object so that the bubble can drain.
